@@ -27,7 +27,12 @@ import (
 func vhC13FontSubset(s *canvasFont.SFNT, glyphIDs []uint16, o canvasFont.SubsetOptions) (*canvasFont.SFNT, error) {
 	return s, nil
 }
-func vhC13FontWrite(s *canvasFont.SFNT) []byte               { return []byte("\x00\x01\x00\x00program") }
+func vhC13FontWrite(s *canvasFont.SFNT) []byte {
+	if s.IsCFF {
+		return []byte("OTTOprogram")
+	}
+	return []byte("\x00\x01\x00\x00program")
+}
 func vhC13FontAdvance(s *canvasFont.SFNT, g uint16) uint16   { return 500 + 10*g }
 func vhC13MkToUnicode[T any](_ *T) func(*T, uint16) rune {
 	return func(_ *T, g uint16) rune { return rune(0x40 + g) }
@@ -92,6 +97,7 @@ func vhC13FontDoc(pages int, structure, mode bool) {
 	vStub("!strings.ReplaceAll", vhC13ReplaceAll)
 	vStub("!(*github.com/tdewolff/font.SFNT).Subset", vhC13FontSubset)
 	vStub("!(*github.com/tdewolff/font.SFNT).Write", vhC13FontWrite)
+	vStub("!github.com/tdewolff/font.ParseSFNT", vhC13ParseSFNT)
 	vStub("!(*github.com/tdewolff/font.SFNT).GlyphAdvance", vhC13FontAdvance)
 	subset := vChoose(0, 1) == 1
 	// uses: bit 0 = font A horizontal, bit 1 = font A vertical, bit 2 = font B (CFF) horizontal
